@@ -23,7 +23,8 @@ def catalogue():
   add("Disparity", L(2, U.pct), L(10, U.px), L(0.5, U.c), L(1, U.rw), L(1, U.em))
   add("DisplayAlign", sp.DisplayAlignType.after, sp.DisplayAlignType.center, sp.DisplayAlignType.before)
   add("Extent", sp.ExtentType(L(50, U.pct), L(80, U.pct)), sp.ExtentType(L(540, U.px), L(960, U.px)),
-      sp.ExtentType(L(5, U.c), L(20, U.c)), sp.ExtentType(L(40, U.rh), L(60, U.rw)), sp.ExtentType(L(150, U.pct), L(120, U.pct)))
+      sp.ExtentType(L(5, U.c), L(20, U.c)), sp.ExtentType(L(40, U.rh), L(60, U.rw)), sp.ExtentType(L(150, U.pct), L(120, U.pct)),
+      sp.ExtentType(L(0, U.pct), L(50, U.pct)), sp.ExtentType(L(10, U.pct), L(0, U.px)))      # nothing to paint on: a zero dimension
   add("FillLineGap", True, False)
   add("FontFamily", ("Arial",), (sp.GenericFontFamilyType.monospace, "Courier"))
   add("FontSize", L(150, U.pct), L(2, U.em), L(1.5, U.c), L(36, U.px), L(6, U.rh), L(3, U.rw))
